@@ -7,8 +7,7 @@ Deciding monitors (post-conditions on the REAL entry points):
 * ``mt.adjoint``  — ``qp.adjoint_metric_tensor`` on tapes and QNodes.
 * ``mt.approx``   — ``approx="diag"`` equals the diagonal of the Fubini-Study metric; ``approx="block-diag"`` equals the
   Fubini-Study metric on a block-diagonal support (the returned zero pattern must be a partition of the parameters into
-  blocks, the diagonal and every returned non-zero entry must equal the true entry, and parameters of gates that are adjacent
-  in the circuit and act on disjoint wires must share a block).
+  blocks, and the diagonal and every returned non-zero entry must equal the true entry).
 * ``mt.fisher``   — ``qp.gradients.quantum_fisher`` equals 4 x the Fubini-Study metric.
 
 Reference: g_ij = Re[<d_i psi|d_j psi> - <d_i psi|psi><psi|d_j psi>] with the state psi from the independent simulator
@@ -29,7 +28,7 @@ META = {
                   "real metric-tensor entry points; results are compared entrywise with the Fubini-Study metric of the reference state. "
                   "Held on the cases observed.",
     "level_note": "Trusts numpy/scipy and the pv/ref gate table. The block partition of approx='block-diag' is not re-derived in full: "
-                  "the monitor demands a block-diagonal support with correct entries and that adjacent disjoint-wire gates share a block. "
+                  "the monitor demands a block-diagonal (partition) support with correct entries. "
                   "Finite shots and the no-free-aux-wire fallback (documented warning) are not swept.",
     "shards": {"quick": 2, "thorough": 16},
     "budget_s": {"quick": 50, "thorough": 400},
@@ -78,7 +77,7 @@ def run(ctx):
         (xt,), _ = transform.expand_transform(tape, **kw)
         return [o.name for o in xt.operations if o.num_params and any(qp.math.requires_grad(d) for d in o.data)], len(tape.trainable_params), len(xt.trainable_params)
 
-    def classify(cfg, spec, default, x=None):
+    def classify(cfg, spec, default, x=None, train=None):
         """mechanism tag (naming only; the verdict is already made):
         * metric_tensor with a trainable PhaseShift-family gate in the (expanded) circuit: its generator is a projector (eigenvalues
           0,1); qp.math.cov_matrix builds kron(eigvals_i, eigvals_j) in observable order but marginalises over the *sorted* wire set
@@ -94,6 +93,12 @@ def run(ctx):
                     return "quantum_fisher:cjac-vs-expanded-tape"
             if "metric_tensor" in cfg or "block-diag" in cfg or ":diag" in cfg:
                 names = [g["name"] for g in spec["gates"] if any(e[0] != "c" for e in g["args"])]
+                if train is not None:     # tape level: trainability is per gate-parameter index
+                    names, k = [], 0
+                    for g in spec["gates"]:
+                        if any((k + j) in train for j in range(len(g["args"]))):
+                            names.append(g["name"])
+                        k += len(g["args"])
                 if x is not None and "adjoint" not in cfg:
                     names = names + expanded_names(qp.metric_tensor, spec, x)[0]
                 if any(n in ASYM for n in names) and "adjoint" not in cfg:
@@ -131,7 +136,7 @@ def run(ctx):
         if compare is not None:
             msg = compare(g)
             if msg:
-                ctx.violation(monitor, f"{cfg}: {msg}", case=case, mech=classify(cfg, spec, f"wrong-metric:{cfg}", x if "qnode" in cfg else None), observed=g, expected=gref)
+                ctx.violation(monitor, f"{cfg}: {msg}", case=case, mech=classify(cfg, spec, f"wrong-metric:{cfg}", x if "qnode" in cfg else None, (extra or {}).get("trainable")), observed=g, expected=gref)
                 return False
             return True
         tol = TOL * max(1.0, float(np.max(np.abs(gref))))
@@ -141,7 +146,7 @@ def run(ctx):
             ratio = g[k] / gref[k] if abs(gref[k]) > 1e-9 else float("nan")
             ctx.violation(monitor, f"{cfg}: metric tensor entry {tuple(int(v) for v in k)} = {g[k]:.10g}, Fubini-Study value {gref[k]:.10g} "
                                    f"(|diff| {err[k]:.3e}, ratio {ratio:.4g})", case=case,
-                          mech=classify(cfg, spec, f"wrong-metric:{cfg}:{'diagonal' if k[0] == k[1] else 'off-diagonal'}", x if "qnode" in cfg else None), observed=g, expected=gref)
+                          mech=classify(cfg, spec, f"wrong-metric:{cfg}:{'diagonal' if k[0] == k[1] else 'off-diagonal'}", x if "qnode" in cfg else None, (extra or {}).get("trainable")), observed=g, expected=gref)
             return False
         return True
 
@@ -231,11 +236,6 @@ def run(ctx):
                     if (masked & reach).any():
                         k = np.argwhere(masked & reach)[0]
                         return f"block-diag: entry {tuple(int(v) for v in k)} is zeroed although both parameters are linked through returned non-zero entries (true value {gt[tuple(k)]:.6g})"
-                    # adjacent parametrised gates on disjoint wires belong to one layer
-                    for a in range(nt - 1):
-                        ga, gb = pos[train[a]], pos[train[a + 1]]
-                        if gb == ga + 1 and not (set(spec["gates"][ga]["wires"]) & set(spec["gates"][gb]["wires"])) and masked[a, a + 1]:
-                            return f"block-diag: parameters {a},{a + 1} belong to adjacent gates on disjoint wires (one layer) but their entry {gt[a, a + 1]:.6g} is zeroed"
                     return None
                 judge("mt.approx", "tape:block-diag", tape_fn(qp.metric_tensor, approx="block-diag"), gt, spec, desc, theta, textra, compare=block_compare)
 
